@@ -1,12 +1,12 @@
 CONSTANTS
-  Fams = {"options", "ctype", "cond", "auth", "cookie", "url"}
+  Fams = {"options", "ctype", "cond", "auth", "cookie", "url", "range", "date"}
   FullLen = 2
   MaxLen = 3
   CoreToks = 9
   PumpLen = 2048
   Pump2Toks = 5
   Pump2Len = 1024
-  Modes = {"seq", "sweep", "pump", "pump2", "table"}
+  Modes = {"seq", "gram", "sweep", "pump", "pump2", "table"}
 INIT Init
 NEXT Next
 CHECK_DEADLOCK FALSE
